@@ -1,5 +1,700 @@
-import NimaVerif.Model.Edit
-/-! # C11 — placeholder until the theorems are in. -/
+import NimaVerif.Lemmas.AssignHistory
+import NimaVerif.Lemmas.NodeEq
+import NimaVerif.Model.ResolveSpec
+/-!
+# C11 — editing through a reference updates exactly the defining binding
+
+Statements about the edit model (`Model/Edit.lean`: `scopeChain`, `scanChain`, `resolveIdent`,
+`assignThrough`, `assignExisting`, `setValue` — a bug-compatible transliteration of
+`cli/manipulations.py` / `resolution.py`, tied to the code by object-graph correspondence on every
+run). Everything quantifies over **all** documents, names, values, chain lengths and nestings.
+
+SPEC (`Model/AssignSpec.lean`, written without reference to the resolver under test):
+`lookupEnv` (innermost frame that binds the name wins; the binding found lives in the environment
+from its own frame outwards), `Defines env name bid` (reference chains followed to their end,
+outwards only — an inductive relation, so cyclic and dangling chains define nothing), `NotBound`,
+`chainEnv` (the let layers around the set and the set itself when `rec`, innermost first),
+`docEnv` (plus the recorded let layer of the top expression when the target sits behind a wrapper).
+
+* §0 the SPEC is Nix's rule for these shapes: innermost wins, outwards only, functional, outer
+  frames never matter to an inner derivation;
+* §1 the resolver: `resolveIdent_sound`, `resolveIdent_complete` (the fuel `1 + number of items`
+  suffices because the identities visited are distinct), `resolveIdent_iff`;
+* §2 `assignThrough_exact` (+ converse), the frame of the write, the reference stays in place,
+  and the same for a plain `set` (`set_through_reference`);
+* §3 `assignExisting_unbound_overwrites`, `set_unbound_overwrites`;
+* §4 the full claim `c11_full`, counterexamples (`cex_*`), `not_c11_full`, `c11_partial`;
+* §5 histories.
+
+Decidable side conditions (`Model/AssignSpec.lean`): `envOK` (name tokens read the same by the
+code's `strip('"')` and by Nix; references are bare identifiers; no Nix name declared twice in one
+binding list), `inheritFree` (no `inherit` clause mentions a name involved — the model stops at
+`inherit`, Nix looks through it), `idsNodup` (object identities distinct). None of them restricts
+depth, shadowing or chain length.
+-/
 namespace Nima.C11
-theorem resolve_fuel_zero (c : List (List Node)) (n : Text) (v : List Nat) : resolveIdent 0 c n v = none := rfl
+
+open Node
+
+/-! ## 0. The SPEC is Nix's lexical scoping for these shapes -/
+
+/-- the name reading is the one C10's SPEC uses -/
+theorem nixName_eq_specName : nixName = Scope.specName := by
+  funext n; rfl
+
+/-- *Innermost wins*: a binding of the name in the innermost frame shadows every outer one. -/
+theorem lookup_innermost_wins (name : Text) (frame : List Node) (outer : List (List Node)) (b : Node)
+    (h : frame.find? (bindsName name) = some b) :
+    lookupEnv name (frame :: outer) = some (b, frame :: outer) := by
+  simp [lookupEnv, h]
+
+/-- a frame that does not bind the name is transparent -/
+theorem lookup_skips_frame (name : Text) (frame : List Node) (outer : List (List Node))
+    (h : frame.find? (bindsName name) = none) :
+    lookupEnv name (frame :: outer) = lookupEnv name outer := by
+  simp [lookupEnv, h]
+
+/-- *Outwards only*: the binding found is a binding of the first frame of the environment it is
+    handed back with, and that environment is a suffix of the one searched — a reference held by a
+    binding of an outer let layer never sees an inner layer. -/
+theorem lookup_outwards_only (name : Text) (env env' : List (List Node)) (b : Node)
+    (h : lookupEnv name env = some (b, env')) :
+    env' <:+ env ∧ ∃ frame outer, env' = frame :: outer ∧ b ∈ frame ∧ bindsName name b = true := by
+  obtain ⟨h1, f, outer, h2, h3⟩ := lookupEnv_spec h
+  exact ⟨h1, f, outer, h2, List.mem_of_find?_eq_some h3, List.find?_some h3⟩
+
+/-- The SPEC is functional: a name has at most one defining binding. -/
+theorem defines_unique (env : List (List Node)) (name : Text) (a b : Nat)
+    (h1 : Defines env name a) (h2 : Defines env name b) : a = b :=
+  Defines.det h1 h2
+
+/-- *Lexical*: what lies further out never changes a derivation that succeeds further in. -/
+theorem defines_extend (env extra : List (List Node)) (name : Text) (bid : Nat)
+    (h : Defines env name bid) : Defines (env ++ extra) name bid := by
+  induction h with
+  | value hl hv => exact Defines.value (lookupEnv_append hl) hv
+  | ref hl _ ih => exact Defines.ref (lookupEnv_append hl) ih
+
+/-- the environment `let a = b; b = a; in …` (one recursive frame) -/
+def cyclicEnv (i j : Nat) : List (List Node) :=
+  [[.bind i "a".toList false (.ident "b".toList) [] [],
+    .bind j "b".toList false (.ident "a".toList) [] []]]
+
+/-- A cyclic chain defines nothing (Nix: infinite recursion) — `Defines` is inductive. -/
+theorem cyclic_defines_nothing (i j : Nat) (bid : Nat) :
+    ¬ Defines (cyclicEnv i j) "a".toList bid := by
+  have hla : lookupEnv "a".toList (cyclicEnv i j) =
+      some (.bind i "a".toList false (.ident "b".toList) [] [], cyclicEnv i j) := rfl
+  have hlb : lookupEnv "b".toList (cyclicEnv i j) =
+      some (.bind j "b".toList false (.ident "a".toList) [] [], cyclicEnv i j) := rfl
+  have key : ∀ p : List Nat, ¬ Path (cyclicEnv i j) "a".toList p bid ∧
+      ¬ Path (cyclicEnv i j) "b".toList p bid := by
+    intro p
+    induction p with
+    | nil => exact ⟨fun h => h.ne_nil rfl, fun h => h.ne_nil rfl⟩
+    | cons x p ih =>
+      constructor
+      · intro h
+        cases h with
+        | value hl hv =>
+          rw [hla] at hl
+          simp only [Option.some.injEq, Prod.mk.injEq, Node.bind.injEq] at hl
+          obtain ⟨⟨_, _, _, rfl, _⟩, _⟩ := hl
+          simp [Node.isIdent] at hv
+        | ref hl hp =>
+          rw [hla] at hl
+          simp only [Option.some.injEq, Prod.mk.injEq, Node.bind.injEq, Node.ident.injEq] at hl
+          obtain ⟨⟨_, _, _, rfl, _⟩, rfl⟩ := hl
+          exact ih.2 hp
+      · intro h
+        cases h with
+        | value hl hv =>
+          rw [hlb] at hl
+          simp only [Option.some.injEq, Prod.mk.injEq, Node.bind.injEq] at hl
+          obtain ⟨⟨_, _, _, rfl, _⟩, _⟩ := hl
+          simp [Node.isIdent] at hv
+        | ref hl hp =>
+          rw [hlb] at hl
+          simp only [Option.some.injEq, Prod.mk.injEq, Node.bind.injEq, Node.ident.injEq] at hl
+          obtain ⟨⟨_, _, _, rfl, _⟩, rfl⟩ := hl
+          exact ih.1 hp
+  intro h
+  obtain ⟨p, hp⟩ := Path.of_defines h
+  exact (key p).1 hp
+
+/-! ## 1. The resolver against the SPEC -/
+
+/-- **Soundness.** Whatever the fuel: when `resolveIdent` answers, the answer is the binding that
+    defines the name under Nix lexical scoping. -/
+theorem resolveIdent_sound (fuel : Nat) (env : List (List Node)) (name : Text) (bid : Nat)
+    (hok : envOK env = true) (hname : nixName name = name)
+    (h : resolveIdent fuel env name [] = some bid) : Defines env name bid :=
+  resolveIdent_sound_aux (EnvWF.of_envOK hok) fuel (fun _ hf => hf) hname h
+
+/-- The identities a derivation visits are pairwise distinct, so there are no more of them than
+    bindings in the environment — why the fuel `1 + number of items` is enough. -/
+theorem visited_distinct (env : List (List Node)) (name : Text) (bid : Nat)
+    (hids : idsNodup env = true) (h : Defines env name bid) :
+    ∃ p : List Nat, Path env name p bid ∧ p.Nodup ∧ (∀ i ∈ p, i ∈ envIds env) ∧
+      p.length ≤ env.flatten.length := by
+  obtain ⟨p, hp⟩ := Path.of_defines h
+  have hn := idsNodup_iff.1 hids
+  exact ⟨p, hp, hp.nodup hn, hp.mem_envIds, hp.length_le hn⟩
+
+/-- **Completeness.** When the SPEC names a defining binding (so the chain is acyclic and ends),
+    any fuel above the number of items of the environment suffices and `resolveIdent` returns it. -/
+theorem resolveIdent_complete (fuel : Nat) (env : List (List Node)) (name : Text) (bid : Nat)
+    (hok : envOK env = true) (hname : nixName name = name)
+    (hinh : inheritFree env name = true) (hids : idsNodup env = true)
+    (hfuel : env.flatten.length < fuel)
+    (h : Defines env name bid) : resolveIdent fuel env name [] = some bid := by
+  obtain ⟨p, hp, hnd, _, hlen⟩ := visited_distinct env name bid hids h
+  obtain ⟨hclear, hinhwf⟩ := InhWF.of_inheritFree hinh
+  exact resolveIdent_complete_aux (EnvWF.of_envOK hok) hinhwf hp fuel [] (fun _ hf => hf) hname
+    hclear hnd (fun _ _ => by simp) (by omega)
+
+/-- With the fuel `assignThrough` passes, the resolver decides the SPEC. -/
+theorem resolveIdent_iff (d : Doc) (ts : Node) (wl : Bool) (name : Text) (bid : Nat)
+    (hok : envOK (chainEnv d ts wl) = true) (hname : nixName name = name)
+    (hinh : inheritFree (chainEnv d ts wl) name = true) (hids : idsNodup (chainEnv d ts wl) = true) :
+    resolveIdent (throughFuel d ts wl) (chainEnv d ts wl) name [] = some bid ↔
+      Defines (chainEnv d ts wl) name bid :=
+  ⟨resolveIdent_sound _ _ _ _ hok hname,
+   resolveIdent_complete _ _ _ _ hok hname hinh hids (throughFuel_ge d ts wl)⟩
+
+/-! ## 2. `assignThrough` writes exactly the defining binding -/
+
+/-- SPEC: the document with the value of Binding object `b` masked (as in C04) -/
+def others (b : Nat) (d : Doc) : Doc := d.updBind b hole
+
+/-- **Exactness.** When `assignThrough` reports success, the new document is the old one with the
+    value of ONE Binding object replaced, and that object is the defining binding of the name under
+    Nix lexical scoping. Everything else — every other binding with its value (`others`), the
+    identity / name / trivia of every binding in document order (`frames`), the wrappers, the
+    identity counter — is unchanged. -/
+theorem assignThrough_exact (ts : Node) (wl : Bool) (name : Text) (v : Node) (d d' : Doc)
+    (hok : envOK (chainEnv d ts wl) = true) (hname : nixName name = name)
+    (h : assignThrough ts wl name v d = (.ok true, d')) :
+    ∃ bid, Defines (chainEnv d ts wl) name bid ∧ d' = d.updBind bid v ∧
+      others bid d' = others bid d ∧ d'.frames bid = d.frames bid ∧
+      d'.wrappers = d.wrappers ∧ d'.next = d.next := by
+  rw [assignThrough_apply'] at h
+  cases hr : resolveIdent (throughFuel d ts wl) (chainEnv d ts wl) name [] with
+  | none => simp [hr] at h
+  | some bid =>
+    simp only [hr, Prod.mk.injEq, true_and] at h
+    subst h
+    exact ⟨bid, resolveIdent_sound _ _ _ _ hok hname hr, rfl, Doc.updBind_absorb bid v hole d,
+      Doc.frames_updBind bid v d, rfl, rfl⟩
+
+/-- When `assignThrough` declines, it has not touched the document. -/
+theorem assignThrough_declines_clean (ts : Node) (wl : Bool) (name : Text) (v : Node) (d d' : Doc)
+    (h : assignThrough ts wl name v d = (.ok false, d')) : d' = d := by
+  rw [assignThrough_apply'] at h
+  cases hr : resolveIdent (throughFuel d ts wl) (chainEnv d ts wl) name [] with
+  | none => simp only [hr, Prod.mk.injEq, true_and] at h; exact h.symm
+  | some bid => simp [hr] at h
+
+/-- **Converse.** When the SPEC names a defining binding, `assignThrough` succeeds and writes it. -/
+theorem assignThrough_complete (ts : Node) (wl : Bool) (name : Text) (v : Node) (d : Doc) (bid : Nat)
+    (hok : envOK (chainEnv d ts wl) = true) (hname : nixName name = name)
+    (hinh : inheritFree (chainEnv d ts wl) name = true) (hids : idsNodup (chainEnv d ts wl) = true)
+    (h : Defines (chainEnv d ts wl) name bid) :
+    assignThrough ts wl name v d = (.ok true, d.updBind bid v) := by
+  rw [assignThrough_apply', (resolveIdent_iff d ts wl name bid hok hname hinh hids).2 h]
+
+/-- The write leaves the reference itself in place (unless it is itself the defining binding). -/
+theorem write_keeps_reference (bid rid : Nat) (nm : Text) (ne : Bool) (name : Text) (bf af : Payload)
+    (v : Node) (h : rid ≠ bid) :
+    Node.updBind bid v (.bind rid nm ne (.ident name) bf af) = .bind rid nm ne (.ident name) bf af := by
+  simp [Node.updBind, h]
+
+/-- Every other Binding object keeps its value (a value that contains the written object changes
+    only inside, by the same write — `C04.write_keeps_other_binding`). -/
+theorem write_keeps_other_value (bid i : Nat) (n : Text) (ne : Bool) (v val : Node) (b a : Payload)
+    (h : i ≠ bid) (hval : Node.hasBind bid val = false) :
+    Node.updBind bid v (.bind i n ne val b a) = .bind i n ne val b a := by
+  simp [Node.updBind, h, updBind_of_not_hasBind bid v val hval]
+
+/-- The identities of the bindings outside the written value are the same, in the same order. -/
+theorem write_keeps_ids (bid : Nat) (v : Node) (d : Doc) :
+    ((d.updBind bid v).frames bid).map (·.1) = (d.frames bid).map (·.1) := by
+  rw [Doc.frames_updBind]
+
+/-- A plain `set k v` on a binding of the target that holds the reference `name`, when the chain
+    resolves inside the set's own let layers / `rec` scope: the defining binding — and only it — is
+    written, and `k` still holds the reference. (No condition on `topScope`, siblings or the length
+    of the chain.) -/
+theorem set_through_reference (d : Doc) (p k : Text) (v : Node) (rid : Nat) (nm : Text) (ne : Bool)
+    (name : Text) (bf af : Payload) (bid : Nat)
+    (hnt : d.noTarget = none) (hsp : splitScopeNpath p = .ok none)
+    (hf : formatNPath currentAnchor p = .ok [k])
+    (hr : findAttrpathRoot d.target.setValues k = none)
+    (hb : findBinding d.target.setValues k = some (.bind rid nm ne (.ident name) bf af))
+    (hok : envOK (chainEnv d d.target true) = true) (hname : nixName name = name)
+    (hinh : inheritFree (chainEnv d d.target true) name = true)
+    (hids : idsNodup (chainEnv d d.target true) = true)
+    (hdef : Defines (chainEnv d d.target true) name bid) :
+    setValue p (.one v) d = (.ok (), d.updBind bid v) ∧
+    (rid ≠ bid → findBinding (d.updBind bid v).target.setValues k =
+      some (.bind rid nm ne (.ident name) bf af)) := by
+  constructor
+  · rw [setValue_ref_single d p k v rid nm ne name bf af hnt hsp hf hr hb, assignExisting_ref,
+      (resolveIdent_iff d d.target true name bid hok hname hinh hids).2 hdef]
+  · intro hne
+    rw [Doc.updBind_target, setValues_updBind, findBinding_updBindL, hb, Option.map_some,
+      write_keeps_reference bid rid nm ne name bf af v hne]
+
+/-! ## 3. A name bound nowhere: the binding at the path is overwritten -/
+
+/-- **Unbound ⇒ overwrite.** When no frame of the chain binds the name, none of the `let_bindings`
+    handed down by `set_value` is named so, and no sibling in the parent set is, `assignExisting`
+    overwrites the binding at the path itself. -/
+theorem assignExisting_unbound_overwrites (ts parent : Node) (wl : Bool) (rid : Nat) (nm : Text)
+    (ne : Bool) (name : Text) (bf af : Payload) (v : Node) (d : Doc)
+    (hok : envOK (chainEnv d ts wl) = true) (hname : nixName name = name)
+    (hchain : NotBound (chainEnv d ts wl) name)
+    (hlet : (letBindings d).find? (·.bindName? == some name) = none)
+    (hsib : findBinding parent.setValues name = none) :
+    assignExisting ts parent wl (.bind rid nm ne (.ident name) bf af) v d =
+      (.ok (), d.updBind rid v) := by
+  rw [assignExisting_ref, resolveIdent_none_of_notBound _ _ _ _ hok hname hchain]
+  simp only [hlet, hsib]
+
+/-- A plain `set k v` on a binding of the target that holds the reference `name`, `name` bound
+    nowhere in the document (no let layer, not the `rec` set itself, not the recorded layer of the
+    top expression) and — the exclusion, see `cex_nonrec_sibling` — not a sibling either:
+    the binding at the path is overwritten. -/
+theorem set_unbound_overwrites (d : Doc) (p k : Text) (v : Node) (rid : Nat) (nm : Text) (ne : Bool)
+    (name : Text) (bf af : Payload)
+    (hnt : d.noTarget = none) (hsp : splitScopeNpath p = .ok none)
+    (hf : formatNPath currentAnchor p = .ok [k])
+    (hr : findAttrpathRoot d.target.setValues k = none)
+    (hb : findBinding d.target.setValues k = some (.bind rid nm ne (.ident name) bf af))
+    (hok : envOK (docEnv d) = true) (hname : nixName name = name)
+    (hnb : NotBound (docEnv d) name)
+    (hsib : findBinding d.target.setValues name = none) :
+    setValue p (.one v) d = (.ok (), d.updBind rid v) := by
+  rw [setValue_ref_single d p k v rid nm ne name bf af hnt hsp hf hr hb]
+  exact assignExisting_unbound_overwrites _ _ _ _ _ _ _ _ _ _ _ (envOK_append_left hok) hname
+    (fun f hf => hnb f (by simp only [docEnv, List.mem_append]; exact Or.inl hf))
+    (letBindings_none_of_notBound d name hname hnb) hsib
+
+/-! ## 4. The full claim, where the code deviates from it, and what holds -/
+
+/-- FULL statement (plain single-segment `set` on a binding of the target that holds a reference;
+    well-formed documents): if the name has a defining binding under Nix lexical scoping in what the
+    document has in scope there, exactly that binding is written; if the name is bound nowhere, the
+    binding at the path is overwritten. False of the model, hence of the code: `not_c11_full`. -/
+def c11_full : Prop :=
+  ∀ (d : Doc) (p k : Text) (v : Node) (rid : Nat) (nm : Text) (ne : Bool) (name : Text)
+    (bf af : Payload),
+    d.noTarget = none → splitScopeNpath p = .ok none → formatNPath currentAnchor p = .ok [k] →
+    findAttrpathRoot d.target.setValues k = none →
+    findBinding d.target.setValues k = some (.bind rid nm ne (.ident name) bf af) →
+    envOK (docEnv d) = true → nixName name = name → inheritFree (docEnv d) name = true →
+    idsNodup (docEnv d) = true →
+    (∀ bid, Defines (docEnv d) name bid → setValue p (.one v) d = (.ok (), d.updBind bid v)) ∧
+    (NotBound (docEnv d) name → setValue p (.one v) d = (.ok (), d.updBind rid v))
+
+/-- `{ version = v; v = "2"; }` — NOT recursive -/
+def sibDoc : Doc :=
+  { target := .set 1 [ .bind 2 "version".toList false (.ident "v".toList) [] [],
+                       .bind 3 "v".toList false (.atom "\"2\"".toList) [] [] ] [] true false
+    next := 4 }
+
+/-- `let v = w; w = "1"; in pkgs.mk { version = v; }` — the let is around the call -/
+def topDoc : Doc :=
+  { target := .set 1 [ .bind 2 "version".toList false (.ident "v".toList) [] [] ] [] true false
+    topScope := some [ .bind 3 "v".toList false (.ident "w".toList) [] [],
+                       .bind 4 "w".toList false (.atom "\"1\"".toList) [] [] ]
+    next := 5 }
+
+/-- `let w = "0"; in f (let v = w; in { version = v; })` — the chain leaves the set's own layers -/
+def crossDoc : Doc :=
+  { target := .set 1 [ .bind 2 "version".toList false (.ident "v".toList) [] [] ] [] true false
+    scope := [ .bind 3 "v".toList false (.ident "w".toList) [] [] ]
+    topScope := some [ .bind 4 "w".toList false (.atom "\"0\"".toList) [] [] ]
+    next := 5 }
+
+/-- `rec { v = "0"; a = rec { version = v; v = "1"; }; }` -/
+def nestDoc : Doc :=
+  { target := .set 1 [ .bind 2 "v".toList false (.atom "\"0\"".toList) [] [],
+        .bind 3 "a".toList false (.set 4 [ .bind 5 "version".toList false (.ident "v".toList) [] [],
+             .bind 6 "v".toList false (.atom "\"1\"".toList) [] [] ] [] true true) [] [] ] [] true true
+    next := 7 }
+
+def newV : Node := .atom "\"NEW\"".toList
+
+/-- Counterexample (open finding C11-nonrec-sibling): in the NON-recursive `{ version = v; v = "2"; }`
+    nothing binds `v` at `version` (Nix: undefined variable), yet `set version` rewrites the sibling
+    `v` (the sibling fallback of `_set_value_in_attrset`) instead of overwriting `version`. -/
+theorem cex_nonrec_sibling :
+    NotBound (docEnv sibDoc) "v".toList ∧
+    setValue "version".toList (.one newV) sibDoc = (.ok (), sibDoc.updBind 3 newV) ∧
+    sibDoc.updBind 3 newV ≠ sibDoc.updBind 2 newV := by decide
+
+/-- Counterexample (open findings C11-let-separated-by-wrapper / C11-outermost-let-behind-call: the
+    `let_bindings` fallback): with the let around a call, `let v = w; w = "1"; in pkgs.mk { version = v; }`,
+    the defining binding of `v` is `w` (chain followed), but `set version` rewrites `v`: the
+    fallback takes the first binding of the top expression's recorded layer named `v` and does not
+    follow its reference. -/
+theorem cex_topscope_chain_not_followed :
+    Defines (docEnv topDoc) "v".toList 4 ∧
+    setValue "version".toList (.one newV) topDoc = (.ok (), topDoc.updBind 3 newV) ∧
+    topDoc.updBind 3 newV ≠ topDoc.updBind 4 newV :=
+  ⟨resolveIdent_sound 3 _ _ _ (by decide) (by decide) (by decide), by decide, by decide⟩
+
+/-- Counterexample (same family): `let w = "0"; in f (let v = w; in { version = v; })` — the chain
+    starts in the set's own let layer and ends in the layer around the call; the resolver sees only
+    the former, finds `w` unbound, and `version` itself is overwritten (the reference is lost). -/
+theorem cex_chain_crosses_wrapper :
+    Defines (docEnv crossDoc) "v".toList 4 ∧
+    setValue "version".toList (.one newV) crossDoc = (.ok (), crossDoc.updBind 2 newV) ∧
+    crossDoc.updBind 2 newV ≠ crossDoc.updBind 4 newV :=
+  ⟨resolveIdent_sound 3 _ _ _ (by decide) (by decide) (by decide), by decide, by decide⟩
+
+/-- SPEC: the environment of the bindings of a set `parent` that is the value of a binding of the
+    target (path `a.k`): the parent's own frame when it is `rec`, then the target's environment. -/
+def nestedEnv (d : Doc) (parent : Node) : List (List Node) :=
+  (if parent.setRecursive then [parent.setValues] else []) ++ chainEnv d d.target true
+
+/-- Counterexample (nested path; not among the recorded findings): in
+    `rec { v = "0"; a = rec { version = v; v = "1"; }; }` the reference `a.version = v` designates
+    the inner `v = "1"` (the inner set is `rec`), but `set a.version` rewrites the OUTER `v`:
+    `_assign_through_identifier` builds the scopes of the *target* set, never of the parent set
+    the path leads into. -/
+theorem cex_nested_rec_parent :
+    Defines (nestedEnv nestDoc (.set 4 [ .bind 5 "version".toList false (.ident "v".toList) [] [],
+             .bind 6 "v".toList false (.atom "\"1\"".toList) [] [] ] [] true true)) "v".toList 6 ∧
+    setValue "a.version".toList (.one newV) nestDoc = (.ok (), nestDoc.updBind 2 newV) ∧
+    nestDoc.updBind 2 newV ≠ nestDoc.updBind 6 newV :=
+  ⟨resolveIdent_sound 3 _ _ _ (by decide) (by decide) (by decide), by decide, by decide⟩
+
+/-- The full claim is false of the model (both clauses fail). -/
+theorem not_c11_full : ¬ c11_full := by
+  intro h
+  have h1 := (h sibDoc "version".toList "version".toList newV 2 "version".toList false "v".toList [] []
+    (by decide) (by decide) (by decide) (by decide) (by decide) (by decide) (by decide) (by decide)
+    (by decide)).2 cex_nonrec_sibling.1
+  rw [cex_nonrec_sibling.2.1] at h1
+  exact cex_nonrec_sibling.2.2 (by simpa using h1)
+
+/-- … and its first clause alone is false as well. -/
+theorem not_c11_full_defining : ¬ (∀ (d : Doc) (p k : Text) (v : Node) (rid : Nat) (nm : Text)
+    (ne : Bool) (name : Text) (bf af : Payload),
+    d.noTarget = none → splitScopeNpath p = .ok none → formatNPath currentAnchor p = .ok [k] →
+    findAttrpathRoot d.target.setValues k = none →
+    findBinding d.target.setValues k = some (.bind rid nm ne (.ident name) bf af) →
+    envOK (docEnv d) = true → nixName name = name → inheritFree (docEnv d) name = true →
+    idsNodup (docEnv d) = true →
+    ∀ bid, Defines (docEnv d) name bid → setValue p (.one v) d = (.ok (), d.updBind bid v)) := by
+  intro h
+  have h1 := h topDoc "version".toList "version".toList newV 2 "version".toList false "v".toList [] []
+    (by decide) (by decide) (by decide) (by decide) (by decide) (by decide) (by decide) (by decide)
+    (by decide) 4 cex_topscope_chain_not_followed.1
+  rw [cex_topscope_chain_not_followed.2.1] at h1
+  exact cex_topscope_chain_not_followed.2.2 (by simpa using h1)
+
+/-- PARTIAL (everything but the deviations above). For a plain single-segment `set` on a binding of
+    the target that holds a reference, in a well-formed document:
+    * when the target does not sit behind a wrapper that carries a let (`topScope = none` — the
+      decidable condition that excludes `cex_topscope_chain_not_followed` /
+      `cex_chain_crosses_wrapper`; `set_through_reference` is the sharper form: the chain resolves
+      inside the set's own layers), the defining binding under Nix lexical scoping — chains followed
+      to their end through any number of let layers and the `rec` scope, with any shadowing — is the
+      one object written;
+    * when the name is bound nowhere and (excluding `cex_nonrec_sibling`) no sibling carries it,
+      the binding at the path is overwritten. -/
+theorem c11_partial (d : Doc) (p k : Text) (v : Node) (rid : Nat) (nm : Text) (ne : Bool)
+    (name : Text) (bf af : Payload)
+    (hnt : d.noTarget = none) (hsp : splitScopeNpath p = .ok none)
+    (hf : formatNPath currentAnchor p = .ok [k])
+    (hr : findAttrpathRoot d.target.setValues k = none)
+    (hb : findBinding d.target.setValues k = some (.bind rid nm ne (.ident name) bf af))
+    (hok : envOK (docEnv d) = true) (hname : nixName name = name)
+    (hinh : inheritFree (docEnv d) name = true) (hids : idsNodup (docEnv d) = true) :
+    (d.topScope = none → ∀ bid, Defines (docEnv d) name bid →
+      setValue p (.one v) d = (.ok (), d.updBind bid v)) ∧
+    (findBinding d.target.setValues name = none → NotBound (docEnv d) name →
+      setValue p (.one v) d = (.ok (), d.updBind rid v)) := by
+  constructor
+  · intro ht bid hdef
+    have he : docEnv d = chainEnv d d.target true := by simp [docEnv, ht]
+    rw [he] at hok hinh hids hdef
+    exact (set_through_reference d p k v rid nm ne name bf af bid hnt hsp hf hr hb hok hname hinh
+      hids hdef).1
+  · intro hsib hnb
+    exact set_unbound_overwrites d p k v rid nm ne name bf af hnt hsp hf hr hb hok hname hnb hsib
+
+/-- The sharper form of the first clause, whatever `topScope` is: a chain that resolves inside the
+    set's own let layers / `rec` scope is also the document-level defining binding (`defines_extend`)
+    and is the one object written. -/
+theorem c11_partial_through_chain (d : Doc) (p k : Text) (v : Node) (rid : Nat) (nm : Text) (ne : Bool)
+    (name : Text) (bf af : Payload) (bid : Nat)
+    (hnt : d.noTarget = none) (hsp : splitScopeNpath p = .ok none)
+    (hf : formatNPath currentAnchor p = .ok [k])
+    (hr : findAttrpathRoot d.target.setValues k = none)
+    (hb : findBinding d.target.setValues k = some (.bind rid nm ne (.ident name) bf af))
+    (hok : envOK (docEnv d) = true) (hname : nixName name = name)
+    (hinh : inheritFree (docEnv d) name = true) (hids : idsNodup (docEnv d) = true)
+    (hdef : Defines (chainEnv d d.target true) name bid) :
+    Defines (docEnv d) name bid ∧ setValue p (.one v) d = (.ok (), d.updBind bid v) :=
+  ⟨defines_extend _ _ _ _ hdef,
+   (set_through_reference d p k v rid nm ne name bf af bid hnt hsp hf hr hb (envOK_append_left hok)
+     hname (inheritFree_append_left hinh) (idsNodup_append_left hids) hdef).1⟩
+
+/-! ## 5. Histories of edits through references -/
+
+/-- one edit through a reference: the path and its key, the binding addressed (which holds the
+    reference `name`), the defining binding `bid`, the new value -/
+structure RefEdit where
+  p : Text
+  k : Text
+  rid : Nat
+  nm : Text
+  ne : Bool
+  name : Text
+  bf : Payload
+  af : Payload
+  bid : Nat
+  v : Node
+
+def RefEdit.op (e : RefEdit) : Op := .set e.p (.one e.v)
+
+/-- the hypotheses of `set_through_reference` for the edit `e` in the document `d`, and the new
+    value is not itself a reference -/
+structure RefEdit.Ok (d : Doc) (e : RefEdit) : Prop where
+  hsp : splitScopeNpath e.p = .ok none
+  hf : formatNPath currentAnchor e.p = .ok [e.k]
+  hr : findAttrpathRoot d.target.setValues e.k = none
+  hb : findBinding d.target.setValues e.k = some (.bind e.rid e.nm e.ne (.ident e.name) e.bf e.af)
+  hname : nixName e.name = e.name
+  hinh : inheritFree (chainEnv d d.target true) e.name = true
+  hdef : Defines (chainEnv d d.target true) e.name e.bid
+  hv : e.v.isIdent = false
+
+/-- the document-wide side conditions -/
+structure DocOk (d : Doc) : Prop where
+  hnt : d.noTarget = none
+  hok : envOK (chainEnv d d.target true) = true
+  hids : idsNodup (chainEnv d d.target true) = true
+
+theorem chainEnv_after_write (j : Nat) (w : Node) (d : Doc) :
+    chainEnv (d.updBind j w) (d.updBind j w).target true = updEnv j w (chainEnv d d.target true) := by
+  rw [Doc.updBind_target, chainEnv_updBind]
+
+/-- the side conditions survive a write of a non-reference -/
+theorem DocOk.after_write {d : Doc} (h : DocOk d) (j : Nat) (w : Node) (hw : w.isIdent = false) :
+    DocOk (d.updBind j w) :=
+  ⟨h.hnt, by rw [chainEnv_after_write]; exact envOK_updEnv j w hw _ h.hok,
+   by rw [chainEnv_after_write]; exact idsNodup_updEnv j w _ h.hids⟩
+
+/-- **The designation is stable.** After a write of a non-reference to the end of some chain, every
+    other edit through a reference still has its hypotheses — in particular the same name still
+    designates the same defining binding, and the reference is still in place. -/
+theorem RefEdit.Ok.after_write {d : Doc} {e : RefEdit} (he : e.Ok d) (j : Nat) (w : Node)
+    (hw : w.isIdent = false) (hnr : NotRef (chainEnv d d.target true) j) (hne : e.rid ≠ j) :
+    e.Ok (d.updBind j w) where
+  hsp := he.hsp
+  hf := he.hf
+  hr := by rw [Doc.updBind_target, setValues_updBind, findAttrpathRoot_updBindL, he.hr]; rfl
+  hb := by
+    rw [Doc.updBind_target, setValues_updBind, findBinding_updBindL, he.hb, Option.map_some,
+      write_keeps_reference j e.rid e.nm e.ne e.name e.bf e.af w hne]
+  hname := he.hname
+  hinh := by rw [chainEnv_after_write]; exact inheritFree_updEnv j w hw _ _ he.hinh
+  hdef := by rw [chainEnv_after_write]; exact he.hdef.updEnv j w hw hnr
+  hv := he.hv
+
+/-- **History.** A sequence of edits through references (any references, any chains, any number of
+    let layers) whose hypotheses hold in the INITIAL document, none of which addresses a binding that
+    is the defining binding of another: the whole history is the sequence of writes to the defining
+    bindings determined up front — every edit keeps hitting the binding Nix designates, nothing else
+    is ever written, every reference stays in place. By induction over the list of operations. -/
+theorem history_through_references (es : List RefEdit) (d : Doc) (hd : DocOk d)
+    (hes : ∀ e ∈ es, e.Ok d) (hdisj : ∀ e ∈ es, ∀ e' ∈ es, e.rid ≠ e'.bid) :
+    run (es.map RefEdit.op) d = es.foldl (fun d e => d.updBind e.bid e.v) d := by
+  induction es generalizing d with
+  | nil => rfl
+  | cons e es ih =>
+    have he := hes e (by simp)
+    have hstep : (e.op.apply d) = (.ok (), d.updBind e.bid e.v) :=
+      (set_through_reference d e.p e.k e.v e.rid e.nm e.ne e.name e.bf e.af e.bid hd.hnt he.hsp he.hf
+        he.hr he.hb hd.hok he.hname he.hinh hd.hids he.hdef).1
+    have hnr : NotRef (chainEnv d d.target true) e.bid :=
+      NotRef.of_defines (idsNodup_iff.1 hd.hids) he.hdef
+    simp only [List.map_cons, run, hstep, List.foldl_cons]
+    exact ih (d.updBind e.bid e.v) (hd.after_write e.bid e.v he.hv)
+      (fun e' he' => (hes e' (by simp [he'])).after_write e.bid e.v he.hv hnr
+        (hdisj e' (by simp [he']) e (by simp)))
+      (fun a ha b hb => hdisj a (by simp [ha]) b (by simp [hb]))
+
+theorem foldl_write_wrappers (es : List RefEdit) (d : Doc) :
+    (es.foldl (fun d e => d.updBind e.bid e.v) d).wrappers = d.wrappers ∧
+    (es.foldl (fun d e => d.updBind e.bid e.v) d).next = d.next := by
+  induction es generalizing d with
+  | nil => exact ⟨rfl, rfl⟩
+  | cons e es ih => simp only [List.foldl_cons]; exact ih (d.updBind e.bid e.v)
+
+theorem foldl_write_others (b : Nat) (es : List RefEdit) (hb : ∀ e ∈ es, e.bid = b) (d : Doc) :
+    others b (es.foldl (fun d e => d.updBind e.bid e.v) d) = others b d := by
+  induction es generalizing d with
+  | nil => rfl
+  | cons e es ih =>
+    simp only [List.foldl_cons]
+    rw [ih (fun e' he' => hb e' (by simp [he'])), hb e (by simp)]
+    exact Doc.updBind_absorb b e.v hole d
+
+/-- Hence, over the whole history: wrappers and the identity counter are untouched, and when all the
+    edits go through references to the same defining binding `b` (the same reference edited again and
+    again, or several references that end at `b`), everything but the value of `b` is as it was. -/
+theorem history_frame (es : List RefEdit) (d : Doc) (hd : DocOk d)
+    (hes : ∀ e ∈ es, e.Ok d) (hdisj : ∀ e ∈ es, ∀ e' ∈ es, e.rid ≠ e'.bid) :
+    (run (es.map RefEdit.op) d).wrappers = d.wrappers ∧ (run (es.map RefEdit.op) d).next = d.next ∧
+    ∀ b, (∀ e ∈ es, e.bid = b) → others b (run (es.map RefEdit.op) d) = others b d := by
+  rw [history_through_references es d hd hes hdisj]
+  exact ⟨(foldl_write_wrappers es d).1, (foldl_write_wrappers es d).2,
+    fun b hb => foldl_write_others b es hb d⟩
+
+/-! ## Non-vacuity: a document with two let layers, shadowing, a `rec` set, chains, a quoted name -/
+
+/-- `let v = w; w = "0"; in let w = "1"; u = v; inherit lib; in
+    rec { version = u; a = x; x = "3"; "q" = "4"; name = q; free = nowhere; }`
+
+    `version → u → v → w`: `u` is found in the inner layer, `v` in the outer one, and from there `w`
+    is the OUTER `w = "0"` (object 8) — the inner `w = "1"` (object 9) shadows it only for references
+    made further in. -/
+def exDoc : Doc :=
+  { target := .set 1
+      [ .bind 2 "version".toList false (.ident "u".toList) [] [],
+        .bind 3 "a".toList false (.ident "x".toList) [] [],
+        .bind 4 "x".toList false (.atom "\"3\"".toList) [] [],
+        .bind 5 "\"q\"".toList false (.atom "\"4\"".toList) [] [],
+        .bind 6 "name".toList false (.ident "q".toList) [] [],
+        .bind 11 "free".toList false (.ident "nowhere".toList) [] [] ] [] true true
+    scope := [ .bind 7 "v".toList false (.ident "w".toList) [] [],
+               .bind 8 "w".toList false (.atom "\"0\"".toList) [] [] ]
+    stack := [ { scope := [ .bind 9 "w".toList false (.atom "\"1\"".toList) [] [],
+                            .bind 10 "u".toList false (.ident "v".toList) [] [],
+                            .inherit 12 ["lib".toList] ],
+                 order := [], bodyBefore := [], bodyAfter := [], afterLet := none } ]
+    next := 13 }
+
+/-- the side conditions hold of it (three frames, an `inherit` clause, a quoted name) -/
+example : envOK (docEnv exDoc) = true ∧ idsNodup (docEnv exDoc) = true ∧
+    inheritFree (docEnv exDoc) "u".toList = true ∧ nixName "u".toList = "u".toList := by decide
+
+/-- SPEC at work — chain of length 3 across both layers, outwards only: object 8, not 9 -/
+theorem ex_defines_u : Defines (chainEnv exDoc exDoc.target true) "u".toList 8 :=
+  resolveIdent_sound 4 _ _ _ (by decide) (by decide) (by decide)
+
+/-- … directly from the constructors (the SPEC does not need the resolver) -/
+example : Defines (chainEnv exDoc exDoc.target true) "u".toList 8 :=
+  Defines.ref (env' := [(exDoc.stack.map (·.scope)).headD [], exDoc.scope]) rfl
+    (Defines.ref (env' := [exDoc.scope]) rfl (Defines.value (env' := [exDoc.scope]) rfl rfl))
+
+/-- the quoted binding `"q" = …` defines `q`; the `rec` set's own `x` defines `x` -/
+theorem ex_defines_q : Defines (chainEnv exDoc exDoc.target true) "q".toList 5 :=
+  resolveIdent_sound 2 _ _ _ (by decide) (by decide) (by decide)
+theorem ex_defines_x : Defines (chainEnv exDoc exDoc.target true) "x".toList 4 :=
+  resolveIdent_sound 2 _ _ _ (by decide) (by decide) (by decide)
+
+/-- `resolveIdent_complete` / `resolveIdent_iff`: hypotheses satisfiable, fuel of `assignThrough` -/
+example : resolveIdent (throughFuel exDoc exDoc.target true) (chainEnv exDoc exDoc.target true)
+    "u".toList [] = some 8 :=
+  (resolveIdent_iff exDoc exDoc.target true _ 8 (by decide) (by decide) (by decide) (by decide)).2
+    ex_defines_u
+
+/-- `visited_distinct`: the path is `10, 7, 8` -/
+example : ∃ p, Path (chainEnv exDoc exDoc.target true) "u".toList p 8 ∧ p.Nodup ∧ p.length ≤ 11 := by
+  obtain ⟨p, h1, h2, _, h4⟩ := visited_distinct _ _ _ (by decide) ex_defines_u
+  exact ⟨p, h1, h2, h4⟩
+
+/-- `assignThrough_exact`: its hypothesis holds here … -/
+example : assignThrough exDoc.target true "u".toList newV exDoc = (.ok true, exDoc.updBind 8 newV) :=
+  assignThrough_complete _ _ _ _ _ 8 (by decide) (by decide) (by decide) (by decide) ex_defines_u
+/-- … and `assignThrough_declines_clean`'s for the unbound name -/
+example : assignThrough exDoc.target true "nowhere".toList newV exDoc = (.ok false, exDoc) := by decide
+
+/-- `set version "NEW"` writes object 8 (`w = "0"` of the OUTER layer) and `version` still holds `u` -/
+example : setValue "version".toList (.one newV) exDoc = (.ok (), exDoc.updBind 8 newV) ∧
+    findBinding (exDoc.updBind 8 newV).target.setValues "version".toList =
+      some (.bind 2 "version".toList false (.ident "u".toList) [] []) := by
+  have h := set_through_reference exDoc "version".toList "version".toList newV 2 "version".toList false
+    "u".toList [] [] 8 rfl (by decide) (by decide) (by decide) (by decide) (by decide) (by decide)
+    (by decide) (by decide) ex_defines_u
+  exact ⟨h.1, h.2 (by decide)⟩
+
+/-- `set free "NEW"`: `nowhere` is bound nowhere, no sibling: `free` itself is overwritten -/
+example : setValue "free".toList (.one newV) exDoc = (.ok (), exDoc.updBind 11 newV) :=
+  set_unbound_overwrites exDoc "free".toList "free".toList newV 11 "free".toList false
+    "nowhere".toList [] [] rfl (by decide) (by decide) (by decide) (by decide) (by decide) (by decide)
+    (by decide) (by decide)
+
+example : assignExisting exDoc.target exDoc.target true
+    (.bind 11 "free".toList false (.ident "nowhere".toList) [] []) newV exDoc =
+      (.ok (), exDoc.updBind 11 newV) :=
+  assignExisting_unbound_overwrites _ _ _ _ _ _ _ _ _ _ _ (by decide) (by decide) (by decide)
+    (by decide) (by decide)
+
+/-- both clauses of `c11_partial` are inhabited by `exDoc` -/
+example : setValue "name".toList (.one newV) exDoc = (.ok (), exDoc.updBind 5 newV) :=
+  (c11_partial exDoc "name".toList "name".toList newV 6 "name".toList false "q".toList [] []
+    rfl (by decide) (by decide) (by decide) (by decide) (by decide) (by decide) (by decide)
+    (by decide)).1 rfl 5 ex_defines_q
+
+/-- a history: `set version 1; set a 2; set name 3; set version 4` -/
+def exEdits : List RefEdit :=
+  [ ⟨"version".toList, "version".toList, 2, "version".toList, false, "u".toList, [], [], 8, .atom "1".toList⟩,
+    ⟨"a".toList, "a".toList, 3, "a".toList, false, "x".toList, [], [], 4, .atom "2".toList⟩,
+    ⟨"name".toList, "name".toList, 6, "name".toList, false, "q".toList, [], [], 5, .atom "3".toList⟩,
+    ⟨"version".toList, "version".toList, 2, "version".toList, false, "u".toList, [], [], 8, .atom "4".toList⟩ ]
+
+theorem ex_history_hyps : DocOk exDoc ∧ (∀ e ∈ exEdits, e.Ok exDoc) ∧
+    (∀ e ∈ exEdits, ∀ e' ∈ exEdits, e.rid ≠ e'.bid) := by
+  refine ⟨⟨rfl, by decide, by decide⟩, ?_, by decide⟩
+  intro e he
+  simp only [exEdits, List.mem_cons, List.not_mem_nil, or_false] at he
+  rcases he with rfl | rfl | rfl | rfl
+  · exact ⟨by decide, by decide, by decide, by decide, by decide, by decide, ex_defines_u, by decide⟩
+  · exact ⟨by decide, by decide, by decide, by decide, by decide, by decide, ex_defines_x, by decide⟩
+  · exact ⟨by decide, by decide, by decide, by decide, by decide, by decide, ex_defines_q, by decide⟩
+  · exact ⟨by decide, by decide, by decide, by decide, by decide, by decide, ex_defines_u, by decide⟩
+
+example : run (exEdits.map RefEdit.op) exDoc =
+    (((exDoc.updBind 8 (.atom "1".toList)).updBind 4 (.atom "2".toList)).updBind 5
+      (.atom "3".toList)).updBind 8 (.atom "4".toList) :=
+  history_through_references exEdits exDoc ex_history_hyps.1 ex_history_hyps.2.1 ex_history_hyps.2.2
+
+/-- the hypotheses of the counterexamples' documents: all side conditions hold of them, so the
+    deviations are not artefacts of an ill-formed input -/
+example : envOK (docEnv sibDoc) = true ∧ idsNodup (docEnv sibDoc) = true ∧
+    envOK (docEnv topDoc) = true ∧ idsNodup (docEnv topDoc) = true ∧
+    inheritFree (docEnv topDoc) "v".toList = true ∧
+    envOK (docEnv crossDoc) = true ∧ idsNodup (docEnv crossDoc) = true ∧
+    inheritFree (docEnv crossDoc) "v".toList = true := by decide
+
+/-- second clause of `c11_partial` on `exDoc` -/
+example : setValue "free".toList (.one newV) exDoc = (.ok (), exDoc.updBind 11 newV) :=
+  (c11_partial exDoc "free".toList "free".toList newV 11 "free".toList false "nowhere".toList [] []
+    rfl (by decide) (by decide) (by decide) (by decide) (by decide) (by decide) (by decide)
+    (by decide)).2 (by decide) (by decide)
+
+/-- `let v = "0"; in f (let v = w; w = "1"; in { version = v; })` — behind a wrapper that carries a
+    let (which also binds `v`), the chain resolves inside the set's own layer -/
+def wrapDoc : Doc :=
+  { target := .set 1 [ .bind 2 "version".toList false (.ident "v".toList) [] [] ] [] true false
+    scope := [ .bind 3 "v".toList false (.ident "w".toList) [] [],
+               .bind 4 "w".toList false (.atom "\"1\"".toList) [] [] ]
+    topScope := some [ .bind 5 "v".toList false (.atom "\"0\"".toList) [] [] ]
+    next := 6 }
+
+/-- `c11_partial_through_chain` on it: object 4 is written, not the outer `v` (object 5) -/
+example : Defines (docEnv wrapDoc) "v".toList 4 ∧
+    setValue "version".toList (.one newV) wrapDoc = (.ok (), wrapDoc.updBind 4 newV) :=
+  c11_partial_through_chain wrapDoc "version".toList "version".toList newV 2 "version".toList false
+    "v".toList [] [] 4 rfl (by decide) (by decide) (by decide) (by decide) (by decide) (by decide)
+    (by decide) (by decide) (resolveIdent_sound 3 _ _ _ (by decide) (by decide) (by decide))
+
 end Nima.C11
